@@ -1,6 +1,6 @@
 #!/bin/bash
 # runs every registered quick check sequentially; prints one summary line each
-cd /verif
+cd "$(dirname "$0")/.."
 for id in $(python3 -c "import json;print(' '.join(c['property_id'] for c in json.load(open('MANIFEST.json'))['checks']))"); do
   s=$(date +%s)
   out=$(bin/check $id --tier ${1:-quick} 2>&1)
